@@ -11,6 +11,7 @@ import CookModel.Lemmas.InlineScan
 import CookModel.Props.C09
 import CookModel.Props.C04
 import CookModel.Lemmas.TableFacts
+import CookModel.Lemmas.RecipeKeepComp
 /-
   C03  No input makes a public entry point panic, overflow or hang.
 
@@ -861,5 +862,26 @@ theorem C03_inline_scan_terminates_real {α : Type} [Arith α] (env : Env) (hrea
             (iq.push hit.q)
         | none => (if hay.isEmpty then items else items ++ [.text hay], iq)) :=
   C03_inline_scan_terminates env (hd := hreal ▸ C03_digitsNotWs_real)
+
+-- ===== w7reauditA =====
+/-! ### wave 7, seed audit (notes/audit-C03.md "Seed audit"): the totalised `unwrap` of `parse_reference` -/
+
+/-- **`parse_reference`: `components.pop().unwrap()` never fails.**  The model function `parseReference` writes
+    the `pop().unwrap()` of the code (event_consumer.rs, `parse_reference`) as `getLast?.getD []`, i.e. it has no
+    panic value at this site.  This theorem states what makes that legitimate: for EVERY name that takes the path
+    branch (it starts with `./`, `../`, `.\` or `..\`) the vector the code pops from — the pieces of the path,
+    backslashes read as `/`, split at `/`, without the first — is not empty (`./` gives one empty piece: the name
+    is then empty, which `check_empty_name`-style diagnostics do not report; that is C05/C07 matter, not a panic).
+    (A `parse_reference` that drops empty pieces before the `pop` — seed C03-10 — violates this for `./`.) -/
+theorem C03_parse_reference_pop_safe (name : Str) (h : (parseReference name).isSome = true) :
+    (splitOnChar '/' (name.map (fun c => if c = '\\' then '/' else c))).drop 1 ≠ [] := by
+  obtain ⟨r, hr⟩ := Option.isSome_iff_exists.mp h
+  obtain ⟨first, hs, _⟩ := rkc_parseReference_path name r hr
+  rw [hs]
+  simp
+
+/-- the shortest path-like names take the branch: `./` (one empty piece) and `..\a` -/
+example : (parseReference "./".toList).isSome = true ∧ (parseReference "..\\a".toList).isSome = true ∧
+    (splitOnChar '/' "./".toList).drop 1 = [[]] := by decide
 
 end Cook
